@@ -72,7 +72,10 @@ impl FromStr for Decimal {
           / 10u128
             .checked_pow(u32::try_from(trailing_zeros).unwrap())
             .context("excessive trailing zeros")?;
-        (decimal, u8::try_from(significant_digits).unwrap())
+        (
+          decimal,
+          u8::try_from(significant_digits).context("excessive precision")?,
+        )
       };
 
       Ok(Self {
